@@ -3,12 +3,14 @@ package checks
 import (
 	"encoding/json"
 	"fmt"
+	"regexp"
 	"strings"
 	"testing"
 	"unicode/utf8"
 
 	"github.com/monstermichl/typeshell/lexer"
 	"pgregory.net/rapid"
+	"verif/harness/gen"
 	"verif/harness/lexref"
 	"verif/harness/rep"
 )
@@ -459,8 +461,12 @@ func TestC11(t *testing.T) {
 	}
 
 	checkRapid(t, r, func(t *rapid.T) {
-		if rapid.IntRange(0, 9).Draw(t, "mode") == 0 {
+		switch mode := rapid.IntRange(0, 9).Draw(t, "mode"); mode {
+		case 0:
 			c11Negative(t, r)
+			return
+		case 1, 2:
+			c11Soup(t, r)
 			return
 		}
 		n := rapid.IntRange(1, 30).Draw(t, "ntok")
@@ -505,6 +511,50 @@ func TestC11(t *testing.T) {
 			r.FailCase(t, sig, msg+"\nsource: "+fmt.Sprintf("%q", src), c11Case{Kind: "lex", Property: "C11", Source: src, Expect: want})
 		}
 	})
+}
+
+var reFloatish = regexp.MustCompile(`[0-9]\.[0-9]`)
+
+// c11Soup: arbitrary concatenations of lexeme fragments. The reference grammar decides: if it splits the
+// text, Tokenize must return the same tokens; if it rejects the text, Tokenize must reject it too.
+func c11Soup(t *rapid.T, r *rep.R) {
+	n := gen.Uniform(1, 25).Draw(t, "npieces")
+	var sb strings.Builder
+	for i := 0; i < n; i++ {
+		sb.WriteString(c13Dict[gen.Uniform(0, len(c13Dict)-1).Draw(t, "piece")])
+		if gen.Uniform(0, 3).Draw(t, "glue") == 0 {
+			sb.WriteByte(' ')
+		}
+	}
+	src := sb.String()
+	if reFloatish.MatchString(src) || strings.Contains(src, "\r") && !strings.Contains(src, "\r\n") {
+		t.Skip("float-looking text / lone CR placement: outside the property")
+	}
+	if !utf8.ValidString(src) {
+		t.Skip("source is not valid UTF-8: Go itself rejects such text, the value of such a literal is unspecified")
+	}
+	want, amb, lerr := lexref.Lex(src)
+	if amb {
+		t.Skip("minus-digit after an operand: C12 owns it")
+	}
+	if lerr != nil && strings.Contains(lerr.Error(), "unterminated block comment") {
+		t.Skip("unterminated block comment: unspecified")
+	}
+	got, err := lexer.Tokenize(src)
+	r.Eval()
+	r.Class("soup")
+	r.NonTrivial(src, nil)
+	if lerr != nil {
+		if err == nil {
+			r.FailCase(t, rep.Sig{"field": "no-error", "neg": "soup"}, fmt.Sprintf("Tokenize accepted %q, which the token grammar rejects (%v)", src, lerr),
+				c11Case{Kind: "lex", Property: "C11", Source: src, WantErr: true, Note: "soup: " + lerr.Error()})
+		}
+		return
+	}
+	if msg, sig := c11Compare(src, want, got, err); msg != "" {
+		sig["soup"] = "yes"
+		r.FailCase(t, sig, msg+"\nsource: "+fmt.Sprintf("%q", src), c11Case{Kind: "lex", Property: "C11", Source: src, Expect: want})
+	}
 }
 
 // c11Negative: a valid rendering with one malformed lexeme injected must be rejected.
